@@ -31,4 +31,10 @@ def obligations(tier):
     for t in ['{"?":1}'] if q else ['{"?":1}', '{"?":1,"?":2}', '{"\\u004?":1}']:
         for via in B:
             L.append(ob("embedded2/%s/map=%d" % (t.replace('"', ''), via), ".", "VerifC02Embedded2", [t, via], covers=["success", "error"], max_seconds=600))
+    # time.Time: the location name (user-controlled text) reaches the output through layouts that print the zone abbreviation
+    for layout in range(6):
+        for n in ((1, 2) if q else (1, 2, 3)):
+            if n == 3 and layout not in (0, 4):
+                continue
+            L.append(ob("timezone/layout=%d/n=%d" % (layout, n), ".", "VerifC02TimeZone", [layout, n], covers=(["accepted"] if layout == 5 else ["accepted", "refused"]), max_seconds=600))
     return L
